@@ -52,3 +52,16 @@ CLAIMS["C03"] = dict(
           "memory contents (C02/C16 rules). Names sharing a 256-byte prefix are outside what is decided."),
     technique="information-flow by who-may-read + call-graph reachability + CFG dominance",
     design_ref="DESIGN.md section 3, C03 (R03a-R03e)")
+
+CLAIMS["C04"] = dict(
+    text=("Decides the structural clauses behind 'presentation does not matter': the three readers contain the same "
+          "character-classification chain on the same character (sibling cross-check, plus the absolute shape isalpha -> "
+          "append/len++/growth test, ispunct -> gaps[len]++); every loop that zeroes, totals or materialises gaps covers all "
+          "len+1 slots of all numseq sequences, ALN_STATUS_UNALIGNED is assigned only where all gaps are zero and nothing "
+          "before the merge phase reads gaps; kalign_read_input never resets or overwrites a non-NULL accumulator and "
+          "merge_msa recomputes kind, status and profile tables on every success path."),
+    note=("Clauses only: byte-identical output for two presentations needs the whole parser semantics over all byte strings "
+          "and is NOT decided; the format-sniffing tokens are covered under C06, the kind decision under C13. Heuristics "
+          "with numeric thresholds (is the file empty, first-100-lines sniffing) are not decided."),
+    technique="sibling cross-check of reader chains, loop-span/coverage rule with affine bounds, who-may-write, must-call",
+    design_ref="DESIGN.md section 3, C04 (R04a-R04c)")
